@@ -52,7 +52,7 @@ func Variants() map[string]*DB {
 	dups := map[string][][]Val{
 		"t1": {row(vi(0), vs(""), vi(0)), row(vi(1), vs("x"), vi(1)), row(vi(2), vs("x"), vi(1)),
 			row(vi(3), vs("y"), vs("")), row(vi(4), vs(""), vi(2)), row(vi(-1), vs("Y"), vi(1))},
-		"t2": {row(vi(1), vi(1)), row(vi(1), vi(2)), row(vi(2), vi(2)), row(vi(3), vi(0)), row(vi(9), vi(2)), row(vi(0), vs(""))},
+		"t2": {row(vi(1), vi(1)), row(vi(1), vi(2)), row(vi(2), vi(1)), row(vi(2), vi(2)), row(vi(3), vi(0)), row(vi(9), vi(2)), row(vi(0), vs(""))},
 		"t3": {row(vs(""), vi(0)), row(vs("x"), vi(1)), row(vs("y"), vs("")), row(vs("z"), vs(""))},
 		"t4": {row(vi(1), vs("x"), vi(1)), row(vi(2), vs("x"), vi(2)), row(vi(4), vs(""), vi(2)),
 			row(vi(6), vs("y"), vs("")), row(vi(0), vs(""), vi(0))},
@@ -341,10 +341,13 @@ func wheres(sh *Shape, size int) []*E {
 			break
 		}
 		out = append(out, Bin("is", Col(c), Con(vs("x"))))
+		if size >= 1 || k == 0 {
+			// several values for the leading column of an index: the index is not
+			// ordered / grouped by its following columns
+			out = append(out, In(Col(c), vs("x"), vs("")))
+		}
 		if size >= 1 {
-			out = append(out,
-				Bin(">", Col(c), Con(vs("x"))),
-				In(Col(c), vs("x"), vs("")))
+			out = append(out, Bin(">", Col(c), Con(vs("x"))))
 		}
 		if (size >= 1 && k == 0) || size >= 2 {
 			out = append(out,
